@@ -56,10 +56,12 @@ import (
 
 const (
 	port      = "transfer"
-	baseT     = "usdt"  // fxcore base denom of the bridged token T
-	theirT    = "uusdt" // T's denom on the other chain
-	theirV    = "uvvv"  // the other chain's denom whose voucher is registered one-to-one on fxcore (token V)
-	theirJunk = "ufoo"  // a denom of the other chain nobody registered on fxcore
+	baseT     = "usdt"                  // fxcore base denom of the bridged token T
+	theirT    = "uusdt"                 // T's denom on the other chain
+	theirV    = "uvvv"                  // the other chain's denom whose voucher is registered one-to-one on fxcore (token V)
+	theirW    = "FX"                    // a token of the OTHER chain that happens to be named like fxcore's native coin (token W)
+	theirHop  = "transfer/channel-9/FX" // the same name at the end of a multi-hop path (never registered)
+	theirJunk = "ufoo"                  // a denom of the other chain nobody registered on fxcore
 	extPrefix = "cosmos"
 )
 
@@ -75,6 +77,7 @@ type Consts struct {
 	InitErc  int64    `json:"InitErc"`
 	InitEsc  int64    `json:"InitEsc"`
 	InitPool int64    `json:"InitPool"`
+	WChan    []string `json:"WChan"` // channels on which the voucher of the foreign token named "FX" has a registered pair
 }
 
 // OutRec is the harness' record of a packet fxcore sent (everything needed to rebuild it).
@@ -98,6 +101,7 @@ type Adapter struct {
 	ibcKey   storetypes.StoreKey
 	tokT     common.Address            // ERC-20 contract of T
 	tokV     map[string]common.Address // per channel: ERC-20 contract of V
+	tokW     map[string]common.Address // per channel in WChan: ERC-20 contract of W
 	Recorder common.Address            // stores CALLER in slot 0
 	Reverter common.Address            // SSTORE(1,1) then REVERT
 	treasury *helpers.Signer
@@ -140,6 +144,9 @@ func voucherTrace(ch, base string) transfertypes.DenomTrace {
 
 // VoucherV is the voucher denom of the other chain's "uvvv" over our channel ch (registered one-to-one).
 func VoucherV(ch string) string { return voucherTrace(ch, theirV).IBCDenom() }
+
+// VoucherW is the voucher of the other chain's own token named "FX" over our channel ch.
+func VoucherW(ch string) string { return voucherTrace(ch, theirW).IBCDenom() }
 
 // VoucherT is the IBC voucher denom T has when it arrives over our channel ch (an alias of baseT).
 func VoucherT(ch string) string { return voucherTrace(ch, theirT).IBCDenom() }
@@ -226,6 +233,18 @@ func NewOn(w *world.W, c Consts) *Adapter {
 		pv, ok := w.App.Erc20Keeper.GetTokenPair(ctx, VoucherV(ch))
 		mustf(ok, "token pair of V missing")
 		a.tokV[ch] = pv.GetERC20Contract()
+	}
+
+	// ---- token W: the voucher of the other chain's own "FX", registered one-to-one on the channels in WChan
+	a.tokW = map[string]common.Address{}
+	for i, ch := range c.WChan {
+		sym := fmt.Sprintf("XFX%d", i)
+		md := banktypes.Metadata{Description: "foreign token named FX", Base: VoucherW(ch), Display: sym, Name: "foreign FX over " + ch, Symbol: sym,
+			DenomUnits: []*banktypes.DenomUnit{{Denom: VoucherW(ch), Exponent: 0}, {Denom: sym, Exponent: 18}}}
+		must(w.Handle(ctx, &erc20types.MsgRegisterCoin{Authority: world.GovAddr(), Metadata: md}))
+		pw, ok := w.App.Erc20Keeper.GetTokenPair(ctx, VoucherW(ch))
+		mustf(ok, "token pair of W missing")
+		a.tokW[ch] = pw.GetERC20Contract()
 	}
 
 	// ---- contracts for memo calls
@@ -596,6 +615,10 @@ func (a *Adapter) Apply(ctx sdk.Context, op graph.Op) (sdk.Context, string) {
 			denom = theirT
 		case "t1":
 			denom = theirV
+		case "f1":
+			denom = theirW
+		case "fh":
+			denom = theirHop
 		case "vx":
 			denom = theirJunk
 		default:
@@ -708,10 +731,14 @@ func (a *Adapter) Project(ctx sdk.Context) any {
 		ea := transfertypes.GetEscrowAddress(port, ch)
 		esc[ch] = map[string]int64{"FX": units(bank.GetBalance(ctx, ea, fxtypes.DefaultDenom).Amount), "T": units(bank.GetBalance(ctx, ea, baseT).Amount)}
 		pool[ch] = units(bank.GetBalance(ctx, tm, VoucherT(ch)).Amount)
-		vpool[ch] = units(bank.GetBalance(ctx, tm, VoucherV(ch)).Amount)
+		// registered vouchers: V, and W where it has a pair (ERC-20 balances and parked vouchers summed)
+		vpool[ch] = units(bank.GetBalance(ctx, tm, VoucherV(ch)).Amount) + units(bank.GetBalance(ctx, tm, VoucherW(ch)).Amount)
 		vrc[ch] = map[string]int64{}
 		for _, u := range c.Acct {
 			vrc[ch][u] = a.BalanceOf(ctx, a.tokV[ch], a.User(u).Address())
+			if tw, ok := a.tokW[ch]; ok {
+				vrc[ch][u] += a.BalanceOf(ctx, tw, a.User(u).Address())
+			}
 		}
 	}
 	return map[string]any{"coin": coin, "erc": erc, "other": other, "nseq": nseq, "out": out, "rel": rel, "relx": int64(len(relKeys)),
@@ -771,6 +798,10 @@ func DenomOf(class, ch string) string {
 		return theirT
 	case "t1":
 		return theirV
+	case "f1":
+		return theirW
+	case "fh":
+		return theirHop
 	case "vx":
 		return theirJunk
 	}
